@@ -18,6 +18,9 @@ MCLocalRels0 == { [ups |-> 0, names |-> <<"m">>] }      \* relative dependencies
 MCAddsV == { Art(Reg("R1", <<>>, al), "F1") : al \in MCAllowed } \cup { Art(Reg("R1", <<"m">>, {2}), "F1") }
 \* one registry package version reached through different sub-paths, in either order
 MCAddsG == { Art(Reg("R1", <<>>, {1, 2}), "F1"), Art(Reg("R1", <<"m">>, {2}), "F1"), Art(Reg("R1", <<"m">>, {1, 2}), "F1") }
+\* one artifact reporting the same registry source more than once with different allowed sets
+MCAllowedD == { {1}, {1, 2}, {2} }
+MCAddsP == { Art(Rem("P1", <<>>), "F1") }
 \* coalescing universe: remote adds only
 MCAddsR == { Art(Rem("P1", <<>>), "F1"), Art(Rem("P2", <<>>), "F1"), Art(Rem("P2", <<"m">>), "F1") }
 =============================================================================
